@@ -1,6 +1,6 @@
 (* internal/evaluator/compare.go *)
 From Coq Require Import List ZArith Bool.
-From JM Require Import Base.Outcome Base.Bytes Num.Dec Num.Flt Json.Value.
+From JM Require Import Base.Outcome Base.Bytes Num.Dec Num.Flt Json.Value Json.JsonText.
 Import ListNotations.
 Open Scope Z_scope.
 
@@ -21,7 +21,12 @@ Fixpoint equal (x y : value) : bool :=
   | VNull => match y with VNull => true | _ => false end
   | VBool a => match y with VBool c => Bool.eqb a c | _ => false end
   | VStr a => match y with VStr c => beqb a c | _ => false end
-  | VNum _ =>
+  | VNum xn =>
+    (* two json.Number values with the same valid text are equal without conversion *)
+    if match xn, y with
+       | NJson s, VNum (NJson t) => beqb s t && match json_parse s with Some _ => true | None => false end
+       | _, _ => false
+       end then true else
     match to_decimal x with
     | Some xd => match to_decimal y with Some yd => dec_equal xd yd | None => false end
     | None => false
